@@ -333,6 +333,7 @@ func genScenario(r *rand.Rand, so ScenOpts, marker string) *Scenario {
 			creq.Accept = pick(r, [][]string{nil, {"gzip"}, {"gzip"}})
 		}
 		creq.HTTP2 = form == FGRPC || m.Stream == stBidi || chance(r, 50)
+		creq.HTTP3 = so.Variety && form != FGRPC && chance(r, 10)
 		creq.DeclLen = chance(r, 40)
 		creq.BareCT = chance(r, 20)
 		creq.GetNoBase64 = chance(r, 50)
